@@ -77,8 +77,11 @@ def run(ctx: Ctx) -> None:
         md = node("metadata", 12, [models.token("METADATA", "METADATA"), sp], end_line=14)
         mdc = node("composite", 12, [md], end_line=14)
         body = node("composite_body", 4, [a1, a2, proj, mdc])
+        # an empty block: lark gives its body a Meta without line information
+        empty_body = SObj("Tree", {"data": "composite_body", "children": [], "meta": SObj("Meta", {"empty": True})})
+        empty = node("composite", 16, [node("composite_type", 16), empty_body], end_line=16)
         comp = node("composite", 3, [node("composite_type", 3), body], end_line=15)
-        root = node("start", 3, [comp])
+        root = node("start", 3, [comp, empty])
         return root, {"comp": comp, "a1": a1, "a2": a2, "proj": proj, "mdc": mdc, "sp": sp, "body": body}
 
     h = {}
